@@ -1,0 +1,27 @@
+//go:build verif
+
+// Contracts for the gocv verifier (comment-only file; see /verif/DESIGN.md §4).
+package redirect
+
+//@ import dns "github.com/miekg/dns"
+//@ import query_context "github.com/IrineSistiana/mosdns/v5/pkg/query_context"
+//@ import sequence "github.com/IrineSistiana/mosdns/v5/plugin/executable/sequence"
+
+// the deferred restore of the question name
+//@ func (r *Redirect) Exec$1 [C03]
+//@   requires q != nil && len(q.Question) >= 1
+//@   modifies q.Question[0].Name
+//@   ensures q.Question[0].Name == orgQName
+
+// redirect (C03): whatever the rest of the chain does and returns (answer, none, error), the query
+// leaves with the ID and question it came with; an answer produced for the redirected name is
+// rewritten to the original question.
+//@ func (r *Redirect) Exec [C03]
+//@   requires r != nil && r.m != nil && qCtx != nil && qCtx.query != nil && wfK(next.chain, next.p, next.jumpBack)
+//@   modifies *
+//@   preserves comp(sequence.ChainNode), comp(sequence.ChainWalker), elemsof(*sequence.ChainNode), elemsof(sequence.Matcher)
+//@   ensures qKept(qCtx)
+//@   ensures old(qCtx.resp) == nil ==> respX(qCtx)
+//@   loop 0:
+//@     invariant 0 <= it0 && it0 <= len(r.Question) && (old(qCtx.resp) == nil ==> q.Question[0].Name == redirectTarget)
+//@     invariant forall k int :: 0 <= k && k < len(r.Question) ==> r.Question[k].Name == ite(k < it0 && aftercall(ExecNext, 0, r.Question[k].Name) == redirectTarget, orgQName, aftercall(ExecNext, 0, r.Question[k].Name))
